@@ -1,7 +1,7 @@
 (** C06 — Resampling returns exactly n valid indices and is unbiased.
     Only statements here; proofs live in Proofs/Resample.v and Proofs/ResampleQ.v. *)
 From Coq Require Import List Bool Arith ZArith QArith Qround.
-From Tempest Require Import Base.Ops Model.Resample Proofs.Resample Proofs.ResampleQ Link.Resample.
+From Tempest Require Import Base.Ops Model.Resample Proofs.Resample Proofs.ResampleQ Proofs.ResampleU Link.Resample.
 Import ListNotations.
 
 (** For every arithmetic instance (exact rationals and binary64 alike), every non-empty
@@ -42,6 +42,27 @@ Theorem C06_floor_ceil :
        <= Qceiling (iQ n * nth k (x :: r) 0)%Q)%Z.
 Proof. exact sysres_floor_ceil. Qed.
 Print Assumptions C06_floor_ceil.
+
+(** Unbiasedness, measure-free: for weights (x :: r) >= 0 with exact sum 1 and n >= 1 teeth, the offsets u0 in [0,1)
+    for which tooth i of the comb's output is index k form exactly the half-open interval [lo i k, hi i k), and the
+    lengths of the n intervals of index k add up to n * w_k. Under a uniform offset the probability of an interval is
+    its length, so every index is selected n * w_k times in expectation. *)
+Theorem C06_unbiased :
+  forall x r n k, (0 < n)%nat -> (0 <= x)%Q -> nonneg r -> (W x r (length r) == 1)%Q -> (k <= length r)%nat ->
+  (forall u0 i, (0 <= u0)%Q -> (u0 < 1)%Q -> (i < n)%nat ->
+     exists idx, comb QOps true (positions QOps u0 n) r 0 x = Some idx /\
+       (nth i idx 0%nat = k <-> (lo x r n i k <= u0)%Q /\ (u0 < hi x r n i k)%Q))
+  /\ (sumQ (fun i => hi x r n i k - lo x r n i k)%Q n == iQ n * wt x r k)%Q
+  /\ (forall i, (lo x r n i k <= hi x r n i k)%Q).
+Proof.
+  intros x r n k Hn Hx Hr Hone Hk. split; [|split].
+  - intros u0 i Hu0 Hu1 Hi. exists (map (reach x r) (positions QOps u0 n)). split; [now apply comb_closed_form|].
+    rewrite (nth_indep _ 0%nat (reach x r 0%Q)) by (rewrite map_length; unfold positions; rewrite map_length, seq_length; exact Hi).
+    rewrite map_nth. rewrite positions_nth by exact Hi. now apply tooth_selects_iff.
+  - now apply expected_copies.
+  - intro i. now apply lo_le_hi.
+Qed.
+Print Assumptions C06_unbiased.
 
 (** Multinomial scheme under the inverse-CDF specification of numpy.random.choice:
     every uniform draw r < 1 lands on a valid index. *)
